@@ -97,7 +97,7 @@ def obj_term(x) -> str:
     return "PyOther"
 
 
-def gen_operand(rng, fake_cls, kind=None):
+def gen_operand(rng, fake_cls, kind=None, orders=None):
     import itertools
 
     from tensora import Tensor
@@ -108,7 +108,7 @@ def gen_operand(rng, fake_cls, kind=None):
         return rng.choice([0, 1, 3, -2, 2.5, 0.0, True, False, Fraction(1, 3)])
     if kind == "other":
         return rng.choice([None, "abc", [1.0], 1j, (1, 2), {}])
-    order = rng.choice([0, 1, 1, 2, 2, 2, 3, 3, 4])
+    order = rng.choice(orders or [0, 1, 1, 2, 2, 2, 3, 3, 4])
     dims = [rng.choice([0, 1, 2, 2, 3, 3, 4, 5]) for _ in range(order)]
     modes = [rng.choice([Mode.dense, Mode.compressed]) for _ in range(order)]
     ordering = list(rng.choice(list(itertools.permutations(range(order)))))
@@ -122,8 +122,6 @@ def gen_operand(rng, fake_cls, kind=None):
                 cells[tuple(rng.randrange(d) for d in dims)] = float(rng.randrange(1, 9))
         return Tensor.from_dok(cells, dimensions=tuple(dims), format=fmt)
     if kind == "fake_wf":
-        if order > 11 or rng.random() < 0.3:
-            pass
         return fake_cls(order, dims, modes, ordering)
     # ill-formed views
     how = rng.choice(["order", "modes_len", "ordering_len", "not_perm", "negative", "big", "dims_len"])
@@ -156,7 +154,7 @@ def related_operand(rng, fake_cls, x):
     if not isinstance(x, Tensor):
         return gen_operand(rng, fake_cls)
     dims = list(x.dimensions)
-    how = rng.choice(["same", "same", "same", "inner_v", "inner_m", "off"])
+    how = rng.choice(["same"] * 6 + ["inner_v", "inner_m", "inner_v", "inner_m", "off"])
     if how == "inner_v" and dims:
         dims = [rng.choice([dims[-1], dims[0]])]
     elif how == "inner_m" and dims:
@@ -171,8 +169,16 @@ def related_operand(rng, fake_cls, x):
     ordering = tuple(rng.choice(list(itertools.permutations(range(order)))))
     if rng.random() < 0.5:
         return Tensor.from_dok({}, dimensions=tuple(dims), format=Format(modes, ordering))
-    if rng.random() < 0.25:
+    ordering = list(ordering)
+    ill = rng.random()
+    if ill < 0.15:
         modes = modes + (Mode.dense,)  # ill-formed: one mode too many
+    elif ill < 0.3 and ordering:
+        ordering = ordering[:-1]  # ill-formed: an ordering entry is missing
+    elif ill < 0.4 and ordering:
+        ordering[rng.randrange(order)] = rng.choice([-1, order, order + 3])
+    elif ill < 0.5:
+        return fake_cls(order + rng.choice([-1, 1]), dims, modes, ordering)  # order lies
     return fake_cls(order, dims, modes, ordering)
 
 
@@ -202,10 +208,11 @@ def t_operators(rng, n):
     try:
         for i in range(n):
             fname, arity = FUNCS[i % len(FUNCS)]
-            a = gen_operand(rng, fake_cls, "real" if fname.startswith("__") and rng.random() < 0.5 else None)
+            orders = [1, 1, 2, 2, 2, 0, 3] if "matmul" in fname or "matrix" in fname else None
+            a = gen_operand(rng, fake_cls, "real" if fname.startswith("__") and rng.random() < 0.5 else None, orders)
             if fname.startswith("__") and not isinstance(a, Tensor):
-                a = gen_operand(rng, fake_cls, rng.choice(["real", "fake_wf", "fake_ill"]))
-            b = related_operand(rng, fake_cls, a) if rng.random() < 0.6 else gen_operand(rng, fake_cls)
+                a = gen_operand(rng, fake_cls, rng.choice(["real", "fake_wf", "fake_ill"]), orders)
+            b = related_operand(rng, fake_cls, a) if rng.random() < 0.7 else gen_operand(rng, fake_cls, None, orders)
             if rng.random() < 0.15 and not fname.startswith("__"):
                 a, b = b, a
             args = [a, b]
